@@ -1054,10 +1054,12 @@ def _work(task):
 
 def _histories(depth):
     """All event sequences of exactly `depth` events (every shorter sequence is a prefix of one
-    of them and is judged after each event)."""
+    of them and is judged after each event).  X is enabled only where a helper is alive in a
+    run from a fresh Environment (abstract helper state none/alive/dead-unnoticed): killing
+    nothing is a no-op."""
     out = []
 
-    def rec(live, seq):
+    def rec(live, helper, seq):
         if len(seq) == depth:
             out.append(list(seq))
             return
@@ -1066,15 +1068,22 @@ def _histories(depth):
             evs.append('C')
         evs += ['Q%d' % s for s in sorted(live)]
         evs += ['D%d' % s for s in sorted(live)]
-        evs += ['G', 'X']
+        evs.append('G')
+        if helper == 'alive':
+            evs.append('X')
         for ev in evs:
-            nl = set(live)
+            nl, nh = set(live), helper
             if ev == 'C':
                 nl.add(min(s for s in range(3) if s not in live))
+                nh = 'none' if helper == 'dead' else 'alive'
             elif ev[0] == 'D':
                 nl.discard(int(ev[1]))
-            rec(nl, seq + [ev])
-    rec(set(), [])
+            elif ev[0] == 'Q' and helper == 'dead':
+                nh = 'none'
+            elif ev == 'X':
+                nh = 'dead'
+            rec(nl, nh, seq + [ev])
+    rec(set(), 'none', [])
     return out
 
 
@@ -1141,7 +1150,8 @@ def _levels(tier, refs):
                        chains('s0', diag3('s0', [0, 1, 2])) + chains('s1', diag3('s1', [0, 1, 2]))))
     depth = 5 if tier == 'quick' else 6
     hs = _histories(depth)
-    levels.append(('histories depth %d (all %d sequences, all their prefixes)' % (depth, len(hs)),
+    levels.append(('histories depth %d (all %d sequences with effective X, all their prefixes)'
+                   % (depth, len(hs)),
                    [{'kind': 'hchain', 'hists': c} for c in _chunks(hs, 2 * CHAIN)]))
     levels.append(('linear create/drop x200', [{'kind': 'linear', 'n': 200, 'keep': 0},
                                                {'kind': 'linear', 'n': 200, 'keep': 2}]))
